@@ -584,3 +584,97 @@ def r_stack_local(cx):
     cx.ob("R-STACK-LOCAL", "no-persistent-stack", not offenders,
           "no static and no struct field has the type of the coordinate stack" if not offenders else
           "persistent storage of stack type: %s (the stack could leak into a later application)" % offenders)
+
+
+# ---------------------------------------------------------------------------------------------------------------------
+# C03: "modifiers of one step never affect any other step or the enclosing pipeline"
+
+def _mentions(t, needle):
+    hit = []
+
+    def v(x):
+        if x == needle:
+            hit.append(1)
+            return False
+        return True
+
+    mir.walk(t, v)
+    return bool(hit)
+
+
+@rule("R-PIPE-OWN-PARAMS", ["C03"])
+def r_pipe_own_params(cx):
+    """The pipeline constructor receives the text of all its steps as `parameters.definition`. That text may be split
+    into steps and stored as the descriptor's definition, but it must not be tokenized as the parameter list of the
+    pipeline operator itself (ParsedParameters::new splits `definition` at white space, so a trailing modifier of the
+    last step - `omit_fwd`, `omit_inv` - would become a modifier of the pipeline, which an enclosing pipeline then
+    honours). Rule: the RawParameters handed to ParsedParameters::new in the pipeline constructor does not carry
+    the constructor's own `definition`."""
+    c = pipeline_ctor(cx)
+    f = cx.f.fn(c.path)
+    adt = cx.f.lib["adts"]["op::raw_parameters::RawParameters"]
+    didx = [x["name"] for x in adt["variants"][0]["fields"]].index("definition")
+    own_def = ("proj", ("proj", ("arg", 1), "deref"), ("f", didx))
+    n = 0
+    for bb, t in f.calls():
+        if (f.callee(t) or "") != K.PP + "::new":
+            continue
+        n += 1
+        a = f.arg_terms(bb)[0]
+        where = cx.where(t["span"])
+        v = f._deref(a, (bb, len(f.stmts(bb))))
+        why = None
+
+        def carries_own_text(x):
+            y = mir.strip_refs(x)
+            return y == ("arg", 1) or y == ("proj", ("arg", 1), "deref") or _mentions(x, own_def)
+
+        if carries_own_text(a) and (mir.strip_refs(a) == ("arg", 1) or v == ("proj", ("arg", 1), "deref")):
+            why = "the constructor's own RawParameters (whose definition is the text of all the steps) is passed on unchanged"
+        elif v[0] == "call" and isinstance(v[1], str) and v[1] in cx.f.lib["fns"]:
+            # a RawParameters built by a function of the crate (RawParameters::new / next / ...): which of its
+            # arguments end up in the `definition` of the value it returns?
+            import elems as E
+            g = cx.f.fn(v[1])
+            rt = E.return_term(g)
+            dc = g._proj1(rt, ("f", didx)) if rt is not None else None
+            used = set()
+            if dc is None:
+                used = set(range(1, len(v[2]) + 1))
+            else:
+                def vv(x):
+                    if x[0] == "arg":
+                        used.add(x[1])
+                    return True
+                mir.walk(dc, vv)
+            if any(carries_own_text(v[2][k - 1]) for k in used if k - 1 < len(v[2])):
+                why = "the RawParameters passed on is built (by %s) from the text of the steps" % v[1].rsplit("::", 1)[-1]
+        else:
+            d = f._proj1(v, ("f", didx))
+            if carries_own_text(d) or (_mentions(d, ("arg", 1)) and not _only_other_fields(d, didx)):
+                why = "the definition of the RawParameters passed on is derived from the text of the steps"
+        cx.ob("R-PIPE-OWN-PARAMS", "pipeline/own-parameters", why is None,
+              "the pipeline's own parameters are parsed from its invocation (globals), not from the text of its steps"
+              if why is None else
+              "pipeline::new: %s: ParsedParameters::new tokenizes it at white space, so the modifiers of a step "
+              "(e.g. `addone | addone omit_fwd`) become modifiers of the pipeline itself and an enclosing pipeline "
+              "skips the whole nested pipeline" % why, where)
+    cx.count("R-PIPE-OWN-PARAMS", "parse_calls", n)
+
+
+def _only_other_fields(d, didx):
+    """d mentions arg1 only through fields other than `definition` (e.g. the globals)"""
+    bad = []
+
+    def v(x):
+        if x[0] == "proj" and x[1] == ("proj", ("arg", 1), "deref"):
+            if x[2] == ("f", didx):
+                bad.append(x)
+            return False
+        if x == ("arg", 1) or x == ("proj", ("arg", 1), "deref"):
+            bad.append(x)
+            return False
+        return True
+
+    mir.walk(d, v)
+    return not bad
